@@ -23,36 +23,21 @@ def triggers (E : Env) (vs : List Value) : String :=
     (if !Spec.strTransOn E (vs.flatMap Spec.stringsOf) then ["C20-temporal-string-order"] else []) ++
     (if !vs.all Spec.mapsNaNFree then ["C20-nan-in-map"] else []))
 
-/-- what the Spec says about `order_compare a b` without looking at the code: numbers as the rationals they
-    denote (NaN last), null after everything -/
-def specOcmp (a b : Value) : String :=
-  match a, b with
-  | .null, .null => "eq"
-  | .null, _ => "gt"
-  | _, .null => "lt"
-  | a, b =>
-    -- values of different kinds: the openCypher orderability of kinds decides
-    if Spec.typeRank a < Spec.typeRank b then "lt" else if Spec.typeRank b < Spec.typeRank a then "gt" else
-    match Spec.numOrder a b with
-    | some o => ordStr o
-    | none => match a, b with
-      | .bool x, .bool y => ordStr (Value.cmpBool x y)
-      | _, _ => "-"
+/-- the Spec's opinion on `order_compare a b` (`Spec.orderOpinion`) as an observation -/
+def specOcmp (E : Env) (a b : Value) : String :=
+  match Spec.orderOpinion E a b with
+  | some o => ordStr o
+  | none => "-"
 
 def parseOpt (s : String) : Option (Option Nat) :=
   if s == "-" then some none else s.toNat?.map some
 
-/-- the Spec's three-way comparison of two key values, `none` where the Spec has no opinion -/
-def specCmp (a b : Value) : Option Ordering :=
-  match specOcmp a b with
-  | "lt" => some .lt | "eq" => some .eq | "gt" => some .gt | _ => none
-
 /-- the Spec's composed comparison over the ORDER BY items (ASC/DESC), `none` if some needed pair is unordered -/
-def specKeyCmp : List (Value × Dir) → List (Value × Dir) → Option Ordering
+def specKeyCmp (E : Env) : List (Value × Dir) → List (Value × Dir) → Option Ordering
   | (va, da) :: as, (vb, _) :: bs =>
-    match specCmp va vb with
+    match Spec.orderOpinion E va vb with
     | none => none
-    | some .eq => specKeyCmp as bs
+    | some .eq => specKeyCmp E as bs
     | some o => some (if da == .asc then o else o.swap)
   | _, _ => some .eq
 
@@ -77,7 +62,7 @@ def sortLine (E : Env) (dirs sk lm : String) (rowToks : List String) : String ×
     let tab : Array Ordering := Array.ofFn (n := u * u) fun ij =>
       keyCompare E (keyOf (uniq.getD (ij.val / u) 0)) (keyOf (uniq.getD (ij.val % u) 0))
     let stab : Array (Option Ordering) := Array.ofFn (n := u * u) fun ij =>
-      specKeyCmp (keyOf (uniq.getD (ij.val / u) 0)) (keyOf (uniq.getD (ij.val % u) 0))
+      specKeyCmp E (keyOf (uniq.getD (ij.val / u) 0)) (keyOf (uniq.getD (ij.val % u) 0))
     let c (i j : Nat) : Ordering := tab.getD (classOf.getD i 0 * u + classOf.getD j 0) .eq
     let cu (i j : Nat) : Ordering := tab.getD (i * u + j) .eq
     let ui := List.range u
@@ -98,7 +83,9 @@ def sortLine (E : Env) (dirs sk lm : String) (rowToks : List String) : String ×
       | none => l.drop (sk.getD 0)
     let m := s!"{b01 sorted} {b01 stable} {b01 (cut full == slice)} {idsStr full} {idsStr slice}"
     -- the Spec: slice of THE stable sort of the full input, when the Spec orders every pair of keys
-    let specTotal := stab.all (·.isSome)
+    let sg (i j : Nat) : Ordering := (stab.getD (i * u + j) none).getD .eq
+    let specTotal := stab.all (·.isSome) && ui.all fun i => ui.all fun j =>
+      sg i j == (sg j i).swap && ui.all fun k => !(sg i j != .gt && sg j k != .gt && sg i k == .gt)
     let spec := if specTotal then
         let sc (i j : Nat) : Ordering := (stab.getD (classOf.getD i 0 * u + classOf.getD j 0) none).getD .eq
         let sfull := isort sc (List.range rows.length)
@@ -115,7 +102,7 @@ def step (_ : Unit) (ws : List String) : Unit × String × String × String :=
     match head, toks with
     | "ocmp", [a, b] =>
       match parseValue a, parseValue b with
-      | some a, some b => ((), ordStr (orderCompare E a b), specOcmp a b, triggers E [a, b])
+      | some a, some b => ((), ordStr (orderCompare E a b), specOcmp E a b, triggers E [a, b])
       | _, _ => ((), "bad-op", "-", "")
     | "sort", dirs :: sk :: lm :: rowToks =>
       let (m, s, t) := sortLine E dirs sk lm rowToks
